@@ -19,6 +19,9 @@ def run(tier: str) -> int:
     chk = Check("C02", tier)
     scs, n_emitted = scenarios(tier, chk, 6000 if tier == "quick" else 60000)
     types = ["dance-single", "dance-threepanel", "dance-solo", "kb7-single", "dance-double"]
+    # two chart types share their key count with another one (dance-couple = 4, dance-routine = 8)
+    alias = {"dance-single": "dance-couple", "dance-double": "dance-routine"}
+    scs = [dict(s, type=alias.get(s["type"], s["type"])) if i % 9 == 2 else s for i, s in enumerate(scs)]
     scns = [dict(s, id=f"m{i}", variant=i, second_chart=types[i % 5] if i % 3 == 0 else None,
                  title=["Song", "So ng", "a b"][i % 3]) for i, s in enumerate(scs)]
     # EXTENSION beyond C02's domain: files with one #STOPS entry (rejections are observations, not violations)
